@@ -297,6 +297,79 @@ CANARIES = [
 ]
 
 
+class CleanupTasks(Harness):
+    """CleanupConfiguration.cleanup_tasks: a task is marked complete_extent (which lets cleanup() drop whole level directories /
+    run the backend's level delete instead of testing tiles against the coverage) only if its coverage really covers the whole
+    grid -- not merely its bounding box.  The configured coverage is an L-shaped polygon model (hull minus the upper right part
+    beyond a notch point) with symbolic hull and notch; also: no coverage configured, coverage explicitly disabled."""
+    modules = ['mapproxy.grid', 'mapproxy.util.coverage', 'mapproxy.seed.config']
+    functions = ['CleanupConfiguration.cleanup_tasks']
+
+    @classmethod
+    def build(cls, L, cfg):
+        from mapproxy.srs import SRS
+        g = L.mods['mapproxy.grid']
+        G = g.TileGrid(SRS(4326), bbox=(-180.0, -90.0, 180.0, 90.0), origin='ll')
+        return dict(g=g, G=G, covm=L.mods['mapproxy.util.coverage'], sc=L.mods['mapproxy.seed.config'])
+
+    @classmethod
+    def inputs(cls, ctx, cfg):
+        c = [real_var(n) for n in ('hx0', 'hy0', 'hx1', 'hy1')]
+        nx, ny = real_var('notch_x'), real_var('notch_y')
+        assume(AND(c[0] >= -400, c[1] >= -400, c[2] <= 400, c[3] <= 400, c[2] - c[0] >= 1, c[3] - c[1] >= 1,
+                   nx > c[0], nx <= c[2], ny > c[1], ny <= c[3]))
+        return dict(hull=c, notch=[nx, ny])
+
+    @classmethod
+    def prop(cls, ctx, cfg, hull, notch):
+        import types
+        from mapproxy.layer import MapExtent
+        g, G, covm, sc = ctx['g'], ctx['G'], ctx['covm'], ctx['sc']
+        r1 = (hull[0], hull[1], notch[0], hull[3])
+        r2 = (hull[0], hull[1], hull[2], notch[1])
+
+        class LCoverage(covm.BBOXCoverage):
+            def intersects(self, bbox, srs):
+                return OR(g.bbox_intersects(r1, bbox), g.bbox_intersects(r2, bbox))
+
+            def contains(self, bbox, srs):
+                return OR(g.bbox_contains(r1, bbox), g.bbox_contains(r2, bbox))
+
+            def transform_to(self, srs):
+                return self
+
+            @property
+            def extent(self):
+                return MapExtent(tuple(hull), G.srs)
+        tasks = []
+        sc.__dict__['CleanupTask'] = lambda md, tm, levels, ts, remove_all=False, coverage=None, complete_extent=False: tasks.append(
+            types.SimpleNamespace(levels=levels, coverage=coverage, complete_extent=complete_extent, remove_all=remove_all))
+        cc = sc.CleanupConfiguration.__new__(sc.CleanupConfiguration)
+        cc.name, cc.conf = 'cleanup', {}
+        cc.grids = ['g']
+        cc.caches = {'c': {'g': types.SimpleNamespace(cache=types.SimpleNamespace(supports_timestamp=True))}}
+        cc.seeding_conf = types.SimpleNamespace(grids={'g': G})
+        cc.levels = None
+        cc.init_time = cc.remove_timestamp = 1000.0
+        cc.remove_all = False
+        mode = cfg['coverage']
+        cc.coverage = LCoverage(tuple(hull), G.srs) if mode == 'polygon' else (False if mode == 'disabled' else None)
+        list(cc.cleanup_tasks())
+        if len(tasks) != 1:
+            return False
+        t = tasks[0]
+        gb = G.bbox
+        if mode == 'disabled':
+            return AND(t.coverage is False, not t.complete_extent)
+        if mode == 'none':
+            return AND(bool(t.complete_extent), tuple(t.coverage.bbox) == tuple(gb))
+        covers_grid = AND(hull[0] <= gb[0], hull[1] <= gb[1], hull[2] >= gb[2], hull[3] >= gb[3], OR(gb[2] <= notch[0], gb[3] <= notch[1]))
+        if cfg.get('witness_flag'):
+            return NOT(covers_grid)
+        ce = t.complete_extent
+        return IMPLIES(ce if isinstance(ce, SymBool) else bool(ce), covers_grid)
+
+
 def obligations(tier, seed):
     specs = []
     # compact caches: the tile walk removes through remove_tile of the bundle -- the slot of a neighbour (index entry and
@@ -344,6 +417,12 @@ def obligations(tier, seed):
     specs.extend(sqltime.specs([('remove_before_removes_exactly_the_older', 'sqlite-time/remove-before-removes-exactly-the-older-tiles')], tier))
     specs.append(sqltime.canary('remove_before_removes_exactly_the_older', 'sqlite cleanup compares with <=',
                                 "last_modified < datetime(?, 'unixepoch', 'localtime'))\",", "last_modified <= datetime(?, 'unixepoch', 'localtime'))\","))
+    for mode in ('polygon', 'none', 'disabled'):
+        specs.append(spec(MOD, 'CleanupTasks', 'cleanup-task-complete-extent-only-if-coverage-covers-the-grid/%s' % mode, cfg=dict(coverage=mode), cost=3))
+    specs.append(spec(MOD, 'CleanupTasks', 'twin/CleanupTasks', kind='witness', cfg=dict(coverage='polygon', witness_flag=True)))
+    specs.append(spec(MOD, 'CleanupTasks', 'canary/every configured coverage counts as the complete extent', kind='canary', cfg=dict(coverage='polygon'), cost=3,
+                      patches={'mapproxy.seed.config': [("                    coverage = self.coverage.transform_to(grid.srs)\n                    complete_extent = False",
+                                                          "                    coverage = self.coverage.transform_to(grid.srs)\n                    complete_extent = True")]}))
     return specs
 
 
